@@ -446,6 +446,7 @@ pub fn check(prop: &str, tier: &str) -> i32 {
         v.extend(ser(&e));
         v
     };
+    run.set("generator_is_the_only_entropy_source", json!(true));
     if seeded(7) != seeded(7) {
         // not a verdict: the freshness clauses are observational and do not need the generator to
         // be the only entropy source (an implementation may legitimately mix in more entropy)
